@@ -975,4 +975,138 @@ def gen_cluster(repo, ns):
     return {"ClusterFns.lean": text}
 
 
-TARGETS = [gen_zero_peak, gen_cluster]
+# =====================================================================================================================
+# target 3: stockwell.transform_slow, dep_itransform
+# =====================================================================================================================
+
+def canon_names(stmts, keep):
+    """rename local names by order of first assignment (`n0`, `n1`, …); names in `keep` stay"""
+    order = []
+    for st in stmts:
+        for n in ast.walk(st):
+            if isinstance(n, ast.Name) and isinstance(n.ctx, ast.Store) and n.id not in order and n.id not in keep:
+                order.append(n.id)
+    m = {n: f"n{i}" for i, n in enumerate(order)}
+
+    class Rn(ast.NodeTransformer):
+        def visit_Name(self, node):
+            return ast.copy_location(ast.Name(id=m.get(node.id, node.id), ctx=node.ctx), node)
+    return [ast.dump(Rn().visit(ast.parse(ast.unparse(st)).body[0])) for st in stmts]
+
+
+def gen_stockwell2(repo, ns):
+    path = os.path.join(repo, 'eqsig', 'stockwell.py')
+    src = open(path).read()
+    mod = ast.parse(src)
+    # ---- transform_slow: the statements up to `diag_con = diag_con[1:n_d2 + 1, :]` must be those of `transform` (translated by py2lean_x_rest)
+    q = 'transform_slow'
+    fn = R.find_function(mod, q)
+    ref = R.find_function(mod, 'transform')
+    names, defaults = R.py_params(fn, q)
+    if names != ['acc', 'interp', 'ith'] or set(defaults) != {'interp', 'ith'} or not (isinstance(defaults['ith'], ast.Constant) and
+                                                                                       isinstance(defaults['ith'].value, int) and not isinstance(defaults['ith'].value, bool)):
+        raise Untranslatable(q, fn.lineno, 'signature is not (acc, interp=…, ith=<int>)')
+    if any(isinstance(n, ast.Name) and n.id == 'interp' for st in fn.body for n in ast.walk(st)):
+        raise Untranslatable(q, fn.lineno, 'the parameter interp is used')
+    imp = [st for st in fn.body if isinstance(st, ast.ImportFrom)]
+    if len(imp) != 1 or imp[0].module != 'scipy.linalg' or [a.name for a in imp[0].names] != ['toeplitz'] or imp[0].names[0].asname:
+        raise Untranslatable(q, fn.lineno, 'imports (expected `from scipy.linalg import toeplitz`)')
+    body, rbody = R.body_of(fn), R.body_of(ref)
+    npre = len(rbody) - 2                       # transform: prefix …; `stock = np.flipud(np.fft.ifft(diag_con * gaussian, axis=1))`; `return stock`
+    if npre < 1 or len(body) < npre + 1:
+        raise Untranslatable(q, fn.lineno, 'body shorter than the prefix of transform')
+    keep = {'acc', 'np', 'toeplitz', 'int', 'len', 'generate_gaussian'}
+    if canon_names(body[:npre], keep) != canon_names(rbody[:npre], keep):
+        raise Untranslatable(q, body[0].lineno, 'the statements before the product differ from those of `transform`')
+    # names of `diag_con` and `gaussian` = the operands of the product in `transform`
+    pre_names = []
+    for st in body[:npre]:
+        if isinstance(st, ast.Assign) and isinstance(st.targets[0], ast.Name):
+            pre_names.append(st.targets[0].id)
+    tail = body[npre:]
+    tmpl = ("SKIP = 0\nAA = DIAG[SKIP:, :] * GAUSS[SKIP:, :]\nUP = np.zeros_like(AA)\nAA = AA[:-ith, :]\nUP[:-ith, :] = np.fft.ifft(AA, axis=1)\n"
+            "ST = np.flipud(UP)\nreturn ST")
+    want = ast.parse(tmpl).body
+    if len(tail) != len(want):
+        raise Untranslatable(q, tail[0].lineno if tail else fn.lineno, 'the statements after the Toeplitz rows are not the 7 expected ones')
+    if not (isinstance(tail[0], ast.Assign) and isinstance(tail[0].targets[0], ast.Name) and isinstance(tail[0].value, ast.Constant) and
+            isinstance(tail[0].value.value, int) and not isinstance(tail[0].value.value, bool) and tail[0].value.value >= 0):
+        raise Untranslatable(q, tail[0].lineno, '`skip_is = <non-negative integer literal>` expected')
+    skip = tail[0].value.value
+    # bind the template names
+    try:
+        m = {'SKIP': tail[0].targets[0].id, 'AA': tail[1].targets[0].id, 'UP': tail[2].targets[0].id, 'ST': tail[5].targets[0].id,
+             'DIAG': tail[1].value.left.value.id, 'GAUSS': tail[1].value.right.value.id}
+    except AttributeError:
+        raise Untranslatable(q, tail[1].lineno, 'shape of the statements after the Toeplitz rows')
+    rprod = rbody[npre].value.args[0].args[0] if isinstance(rbody[npre], ast.Assign) else None
+    try:
+        ref_diag, ref_gauss = rprod.left.id, rprod.right.id
+    except AttributeError:
+        raise Untranslatable('transform', rbody[npre].lineno, 'shape of the product statement')
+    # the operands must be the same prefix variables as in `transform` (positions in the prefix)
+    rpre = [st.targets[0].id for st in rbody[:npre] if isinstance(st, ast.Assign) and isinstance(st.targets[0], ast.Name)]
+    if len(set(m.values())) != 6 or rpre.index(ref_diag) != pre_names.index(m['DIAG']) if m['DIAG'] in pre_names else True:
+        raise Untranslatable(q, tail[1].lineno, 'the product does not use the Toeplitz rows of the prefix')
+    if m['GAUSS'] not in pre_names or rpre.index(ref_gauss) != pre_names.index(m['GAUSS']) or \
+            [i for i, n in enumerate(pre_names) if n == m['DIAG']][-1] != [i for i, n in enumerate(rpre) if n == ref_diag][-1]:
+        raise Untranslatable(q, tail[1].lineno, 'the product does not use the window / Toeplitz rows of the prefix')
+    inv = {v: k for k, v in m.items()}
+
+    class Rn(ast.NodeTransformer):
+        def visit_Name(self, node):
+            return ast.copy_location(ast.Name(id=inv.get(node.id, node.id), ctx=node.ctx), node)
+    for a, b in zip(tail, want):
+        a2 = Rn().visit(ast.parse(ast.unparse(a)).body[0])
+        if isinstance(b, ast.Assign) and isinstance(b.value, ast.Constant) and isinstance(a2, ast.Assign) and isinstance(a2.value, ast.Constant):
+            a2.value = ast.Constant(value=0)
+        if ast.dump(a2) != ast.dump(b):
+            raise Untranslatable(q, a.lineno, f"statement differs from `{ast.unparse(b)}`")
+    rest_text = R.gen_stockwell_fns(repo, ns)['StockwellFns.lean']
+    blk = rest_text[rest_text.index("\ndef transform "):]
+    blk = blk[:blk.index("\n\n")].split('\n')
+    k = [i for i, ln in enumerate(blk) if ln.strip().startswith('let e2 ← NpR.ifftRowsE')]
+    head = [i for i, ln in enumerate(blk) if ln.rstrip().endswith(':= do')]
+    if len(k) != 1 or len(head) != 1 or 'v3 v1' not in blk[k[0]]:
+        raise Untranslatable('transform', ref.lineno, 'unexpected shape of the text generated by py2lean_x_rest for `transform`')
+    prefix = blk[head[0] + 1:k[0]]
+    sig_lines = blk[1:head[0] + 1]
+    sig = "\n".join(sig_lines).replace("(acc : List β) :", "(acc : List β) (ith : Int) :")
+    if sig.count("(ith : Int)") != 1:
+        raise Untranslatable('transform', ref.lineno, 'unexpected signature text generated by py2lean_x_rest')
+    lines = prefix + [
+        f"  let v4 := List.zipWith (List.zipWith (fun d g => d * CxLike.ofReal g)) (v3.drop {skip}) (v1.drop {skip})",
+        "  let v5 := v4.map (fun row => row.map (fun _ => (0 : β)))",
+        "  let v6 := NpR.pyTo v4 (-ith)",
+        "  let e2 ← NpR.ifftRowsE tw v6",
+        "  let e3 ← NpR.setSlicePyE v5 (0 : Int) (-ith) e2",
+        "  pure (NpE.flip e3)"]
+    d1 = ("/-- `eqsig.stockwell.transform_slow(acc, interp, ith)`: the statements up to the Toeplitz rows are those of `transform` (same text as\n"
+          "`StockwellFns.transform`); then `aa = diag_con[skip:, :] * gaussian[skip:, :]`, `upstock = np.zeros_like(aa)`, `aa = aa[:-ith, :]`,\n"
+          "`upstock[:-ith, :] = np.fft.ifft(aa, axis=1)`, `np.flipud(upstock)`.  NOTE `[:-0]` is `[:0]`: with the default `ith=0` NO row is transformed -/\n"
+          "def transformSlow " + sig.split("def transform ", 1)[1] + "\n" + "\n".join(lines))
+    d2 = (f"/-- default of `ith` -/\ndef transformSlowIthDefault : Int := {defaults['ith'].value}\n\n"
+          f"/-- the literal `skip_is` (number of low-frequency rows skipped) -/\ndef transformSlowSkip : Nat := {skip}")
+    # ---- dep_itransform(stock): `from scipy.fftpack import ifft`; `return np.real(ifft(np.sum(stock, axis=1)))`
+    q = 'dep_itransform'
+    fn = R.find_function(mod, q)
+    imp = [st for st in fn.body if isinstance(st, ast.ImportFrom)]
+    body = R.body_of(fn)
+    want = ast.parse("return np.real(ifft(np.sum(stock, axis=1)))").body[0]
+    if [a.arg for a in fn.args.args] != ['stock'] or len(imp) != 1 or imp[0].module not in ('scipy.fftpack', 'scipy.fft', 'numpy.fft') or \
+            [a.name for a in imp[0].names] != ['ifft'] or imp[0].names[0].asname or len(body) != 1 or ast.dump(body[0]) != ast.dump(want):
+        raise Untranslatable(q, fn.lineno, 'body is not `from scipy.fftpack import ifft; return np.real(ifft(np.sum(stock, axis=1)))`')
+    d3 = (f"/-- `eqsig.stockwell.dep_itransform(stock)`: `{imp[0].module}.ifft` is the defining sum with the twiddle table `tw` (assumption `FftIsDft`) at the length\n"
+          "`len(stock)` of the row sums — HALF the length that `itransform` returns -/\n"
+          "def depItransform {α β : Type} [Add β] [Mul β] [Div β] [OfNat β 0] [NatCast α] [CxLike α β]\n"
+          "    (tw : Nat → Nat → β) (stock : List (List β)) :\n    Except ErrKind (List α) := do\n"
+          "  let v1 := stock.map Cplx.sumL\n  let e1 ← NpE.ifft tw v1 v1.length\n  pure (e1.map (fun a => (CxLike.re a)))")
+    text = "\n".join([
+        "-- GENERATED by tools/py2lean_x_rest2.py from eqsig/stockwell.py (transform_slow, dep_itransform). Do not edit.",
+        "import EqsigVerif.Prelude.NpR", f"import EqsigVerif.{ns}.StockwellFns", "",
+        "set_option linter.unusedVariables false", "", f"namespace EqsigVerif.{ns}.StockwellFns2",
+        f"open EqsigVerif EqsigVerif.Wire EqsigVerif.Cplx EqsigVerif.{ns}.StockwellFns", "", "\n\n".join([d1, d2, d3]), "", f"end EqsigVerif.{ns}.StockwellFns2", ""])
+    return {"StockwellFns2.lean": text}
+
+
+TARGETS = [gen_zero_peak, gen_cluster, gen_stockwell2]
